@@ -1032,6 +1032,27 @@ def check(tier: str, seed: int, t0: float, build: core.BuildStatus) -> int:
                               {"kind": "pair", "variant": "fusion", "backend": backend, "a": a_src, "b": b_src,
                                "broken": "oracle: equal packages for chained and pre-fused steps (third-party simplify_chained_calls, differential only)"})
 
+    # ---- directed: two independent C++ function declarations in either order, the calls in either order ----
+    for backend in BACKENDS:
+        cname, bank, _ = UNIVERSE[backend][0]
+        for body in ("fv_scale(j.pt()) + fv_shift(j.eta())", "fv_shift(j.pt())", "fv_scale(j.eta())"):
+            q = f'ds.Select(lambda e: e.{cname}("{bank}").Select(lambda j: {body}))'
+            tree = ast.parse(q, mode="eval").body
+            mds = base_md(backend)
+            names = [m.get("name") for m in mds]
+            i1, i2 = names.index("fv_scale"), names.index("fv_shift")
+            mds2 = list(mds)
+            mds2[i1], mds2[i2] = mds2[i2], mds2[i1]
+            a_src = src_of(with_metadata(tree, mds, [0] * len(mds)))
+            b_src = src_of(with_metadata(tree, mds2, [0] * len(mds2)))
+            ra, rb = run_query(a_src, backend), run_query(b_src, backend)
+            oc.evaluations += 1
+            if ra != rb or ra[0] != "ok":
+                violation("c08:metadata-position", f"swapping the declarations of two different C++ functions changes the translation (or the query is refused): {describe(ra, rb)}; query = {q}",
+                          {"kind": "pair", "variant": "metadata", "backend": backend, "a": a_src, "b": b_src,
+                           "broken": "oracle: equal packages whichever of two independent function declarations comes first"})
+            else:
+                oc.traces_validated_against_impl += 1
     # ---- rewriter model vs. the real rewriters ----------------------------------------------------
     rw = {"cases": 0, "agree": 0}
     if model is not None:
